@@ -108,6 +108,10 @@ pub enum Op {
         size: usize,
         props: Option<Props>,
         notify: bool,
+        /// DUP flag of the PUBLISH (QoS 1/2 only): a redelivery the broker has not seen before,
+        /// which it has to treat like any other publish
+        #[serde(default)]
+        dup: bool,
     },
     /// PUBREL for the oldest QoS 2 publish of `c` that has not been released
     Release { c: usize, notify: bool },
